@@ -13,18 +13,20 @@ namespace detail {
 
 class interrupt_mask {
  public:
-  interrupt_mask(ygm::comm &c) : m_comm(c) {
+  interrupt_mask(ygm::comm &c)
+      : m_comm(c), m_previous(c.m_enable_interrupts) {
     m_comm.m_enable_interrupts = false;
   }
 
   ~interrupt_mask() {
-    m_comm.m_enable_interrupts = true;
+    m_comm.m_enable_interrupts = m_previous;
     // m_comm.process_receive_queue();  //causes recursion into
     // process_receive_queue
   }
 
  private:
   ygm::comm &m_comm;
+  bool       m_previous;
 };
 
 }  // namespace detail
